@@ -65,10 +65,10 @@ fn xitem(max_len: usize) -> impl Strategy<Value = XItem> {
                 // <v> cannot carry xml:space: keep strings whose white space is not at an edge of a run
                 it.cuts.clear();
                 it.phonetic = None;
-                // (the empty string needs no white-space handling: <v></v> is a formula that yields "")
-                if needs && !it.text.is_empty() {
-                    it.form = 0;
-                }
+                // <v> is plain character data: blanks at its edges, tabs and line feeds are kept as they
+                // are (no xml:space needed); only a carriage return needs its character reference,
+                // which the encoder writes
+                let _ = needs;
             }
             it
         })
